@@ -12,9 +12,10 @@ import (
 type specAbort struct{ why string }
 
 type regionInfo struct {
-	ok    bool
-	join  *ssa.BasicBlock
-	order []*ssa.BasicBlock // topological order of region blocks (excluding head and join)
+	ok      bool
+	join    *ssa.BasicBlock
+	order   []*ssa.BasicBlock // topological order of region blocks (excluding head and join)
+	returns bool              // the region has no join: every path ends in a Return (merged into one result)
 }
 
 type fnCFG struct {
@@ -107,10 +108,18 @@ func (e *Engine) regionFor(fr *frame, in *ssa.If) *regionInfo {
 	cfg.regions[in] = r
 	head := in.Block()
 	ji := cfg.ipdom[head.Index]
+	var join *ssa.BasicBlock
 	if ji < 0 {
-		return r
+		// no join block: acceptable if every path from here ends in a Return (and the function has no defers).
+		// Not used by arithmetic harnesses: merging e.g. a unit-lookup switch into one ite makes the
+		// products and quotients that follow non-linear, where forking keeps them linear per path.
+		if e.noRetMerge {
+			return r
+		}
+		r.returns = true
+	} else {
+		join = fr.fn.Blocks[ji]
 	}
-	join := fr.fn.Blocks[ji]
 	// DFS from head's successors up to join; detect cycles; collect postorder
 	state := map[*ssa.BasicBlock]int{} // 1 = on stack, 2 = done
 	var post []*ssa.BasicBlock
@@ -138,7 +147,12 @@ func (e *Engine) regionFor(fr *frame, in *ssa.If) *regionInfo {
 		}
 		for _, in := range b.Instrs {
 			switch in.(type) {
-			case *ssa.Store, *ssa.MapUpdate, *ssa.Defer, *ssa.RunDefers, *ssa.Panic, *ssa.Return,
+			case *ssa.Return:
+				if !r.returns {
+					ok = false
+					return
+				}
+			case *ssa.Store, *ssa.MapUpdate, *ssa.Defer, *ssa.RunDefers, *ssa.Panic,
 				*ssa.Go, *ssa.Send, *ssa.Select, *ssa.Range, *ssa.Next:
 				ok = false
 				return
@@ -154,6 +168,7 @@ func (e *Engine) regionFor(fr *frame, in *ssa.If) *regionInfo {
 		dfs(s)
 	}
 	if !ok {
+		r.returns = false
 		return r
 	}
 	for i := len(post) - 1; i >= 0; i-- {
@@ -261,6 +276,11 @@ func (e *Engine) tryIfConvert(fr *frame, in *ssa.If, cond *Term) (done bool) {
 		return first
 	}
 
+	type retArm struct {
+		g    *Term
+		vals []value
+	}
+	var arms []retArm
 	for _, blk := range reg.order {
 		var g *Term = ts.False
 		for _, p := range blk.Preds {
@@ -289,11 +309,51 @@ func (e *Engine) tryIfConvert(fr *frame, in *ssa.If, cond *Term) (done bool) {
 				addEdge(blk, blk.Succs[1], ts.And(g, ts.Not(c)))
 			case *ssa.Jump:
 				addEdge(blk, blk.Succs[0], g)
+			case *ssa.Return:
+				vals := make([]value, len(ins.Results))
+				for i, rv := range ins.Results {
+					vals[i] = fr.get(rv)
+				}
+				arms = append(arms, retArm{g, vals})
 			default:
 				e.visitInstr(fr, ins)
 				e.cur = fr
 			}
 		}
+	}
+	if reg.returns {
+		if len(arms) == 0 {
+			panic(specAbort{"no return arm"})
+		}
+		n := len(arms[0].vals)
+		merged := make([]value, n)
+		for i := 0; i < n; i++ {
+			acc := arms[0].vals[i]
+			accT, _ := acc.(*Term)
+			for _, a := range arms[1:] {
+				vt, isT := a.vals[i].(*Term)
+				if isT && accT != nil {
+					accT = ts.Ite(a.g, vt, accT)
+					acc = accT
+					continue
+				}
+				if !sameValue(acc, a.vals[i]) {
+					panic(specAbort{"non-scalar return"})
+				}
+			}
+			merged[i] = acc
+		}
+		switch n {
+		case 0:
+			fr.result = nil
+		case 1:
+			fr.result = merged[0]
+		default:
+			fr.result = tuple(merged)
+		}
+		fr.block = nil
+		e.stats.IfConverted++
+		return true
 	}
 	mergePhis(reg.join)
 	// position at join with phis already executed
